@@ -27,8 +27,9 @@ structure Sess where
   items : List Item
   tail : Tail
   msg : Bytes := []
-  /-- successful `Write` calls, newest first -/
-  out : List Bytes := []
+  /-- backend messages whose `Write` call succeeded, newest first.  Every write of the
+      session phase is `Writer.End` of one message (Model/Writer.lean models the frame buffer) -/
+  out : List BMsg := []
   /-- number of further `Write` calls that succeed (`none`: all) -/
   wleft : Option Nat := none
   /-- callback / handler-observation trace, newest first -/
@@ -41,13 +42,13 @@ structure Sess where
 
 namespace Sess
 
-def write (s : Sess) (b : Bytes) : Sess × Bool :=
+/-- one `Writer.End`: the `Write` call either succeeds (message recorded) or the transport
+    has started failing -/
+def send (s : Sess) (m : BMsg) : Sess × Bool :=
   match s.wleft with
   | some 0 => (s, false)
-  | some (n + 1) => ({ s with out := b :: s.out, wleft := some n }, true)
-  | none => ({ s with out := b :: s.out }, true)
-
-def send (s : Sess) (m : BMsg) : Sess × Bool := s.write m.encode
+  | some (n + 1) => ({ s with out := m :: s.out, wleft := some n }, true)
+  | none => ({ s with out := m :: s.out }, true)
 
 def log (s : Sess) (e : Event) : Sess := { s with ev := e :: s.ev }
 
